@@ -12,6 +12,8 @@ def run(ctx):
     from props import asm_cmac, asm_cbcsc
     asm_cmac.run_family(ctx, PROP)
     asm_cbcsc.run_family(ctx, PROP)
+    from props import asm_ccm
+    asm_ccm.run_family(ctx, PROP)
     l1.run_k1(ctx)
     ctx.outside.append('managers other than the AES-CBC encrypt family in this tier (HMAC/CMAC/XCBC/CCM/ZUC/SNOW3G/DES-avx512 managers); lengths between the kernel bound and 65520 with the kernel inlined')
     ctx.samples.append('submit with lanes {0,1,2,4,5,6,7} busy (arbitrary keys/IVs/data/lengths) + new job in lane 3: each lane\'s ciphertext equals CBC over its OWN key/IV/plaintext; '
